@@ -15,6 +15,7 @@ type ChanV struct {
 	buf    []Value
 	cap    int
 	closed bool
+	timer  bool // channel of a time.Timer / time.After: "ready" means "may fire now", not "must"
 }
 
 // keyEq builds the equality term for two map keys (scalars or strings).
@@ -341,6 +342,52 @@ func (m *Machine) execSelect(s *State, f *Frame, x *ssa.Select) []*State {
 		build(s, -1)
 		return nil
 	}
+	if m.timersWait && x.Blocking && !s.timerYielded {
+		// every ready case is a timer that MAY fire now: it may as well fire later, after the other
+		// goroutines that can run have run (root option timers_may_wait)
+		onlyTimers := true
+		for _, r := range ready {
+			if ch, ok := s.load(s.get(x.States[r].Chan).(Ptr)).(ChanV); !ok || !ch.timer {
+				onlyTimers = false
+			}
+		}
+		others := false
+		for i := range s.gs {
+			if i != s.cur && m.ready(s, i) {
+				others = true
+			}
+		}
+		if onlyTimers && others {
+			later := s.clone()
+			m.stats.forks++
+			m.stubs["sched-fork:timer-fires-later"]++
+			later.timerYielded = true
+			lf := later.top()
+			lf.idx--
+			var out []*State
+			if succ := m.schedule(later, false); succ != nil {
+				out = append(out, succ...)
+			} else if later.status == "" {
+				out = append(out, later)
+			}
+			// s: the timer fires now
+			if len(ready) == 1 {
+				build(s, ready[0])
+				return append(out, s)
+			}
+			for k, r := range ready {
+				st := s
+				if k < len(ready)-1 {
+					st = s.clone()
+					m.stats.forks++
+				}
+				build(st, r)
+				out = append(out, st)
+			}
+			return out
+		}
+	}
+	s.timerYielded = false
 	if len(ready) == 1 {
 		build(s, ready[0])
 		return nil
